@@ -99,7 +99,12 @@ def run(ctx):
         # laws on the implementation
         if not nc and conv != n:
             violations.append({"what": "conversion off changes the name", "input": [n, c], "observed": conv, "finding": None})
-        if nc and n != "_":
+        stripped = n.strip("_")
+        kept = n == "_" or not stripped or stripped[0].isdigit()     # no identifier would be left: emitted as it is
+        if nc and kept and conv != n:
+            violations.append({"what": "a name whose conversion would not be an identifier is not kept", "input": [n, c], "observed": conv,
+                               "finding": None})
+        if nc and not kept:
             if "_" in conv:
                 violations.append({"what": "converted name contains an underscore", "input": [n, c], "observed": conv, "finding": None})
             if conv.lower() != n.replace("_", "").lower():
